@@ -94,6 +94,8 @@ type FnCtx struct {
 	propFlags map[int][]propFlag
 	onlyFlags map[int][]propFlag // failsonly: "a listed callee returned a non-nil error"
 	storeOrd  map[*ssa.Store]string // assert store NAME#k sites
+	folA      map[int][]propFlag // follows: A returned with E
+	folB      map[int][]propFlag // follows: B called
 	tolFlags  map[int][]propFlag // tolerates: "the listed callee returned the tolerated error value"
 	modMemo  map[*ssa.Function]*ModSet
 	modBusy  map[*ssa.Function]bool
